@@ -24,6 +24,6 @@ def obligations(tier):
            [Rp + 'restore'], module=H, func='s_select', timeout=1200),
         c1['P1'], c1['P1s'],
         Ob('E.listing', 'E', 'list_snapshots / list_files / restore / delete on real histories with filters: rows, order, selection, names accepted by delete',
-           '9 x 9 x 4 path-state histories (incl. a newest snapshot holding only an emptied file) x 5 snapshot filters x 5 file filters x header = 16200, column selection (all / default / reversed subset) rotating with the vector', [Rp + 'list_snapshots', Rp + 'list_files', Rp + 'restore',
+           '9 x 9 x 5 path-state histories (incl. a newest snapshot holding only an emptied file, and one holding a procfs file whose fstat size is 0) x 5 snapshot filters x 5 file filters x header = 20250, column selection (all / default / reversed subset) rotating with the vector', [Rp + 'list_snapshots', Rp + 'list_files', Rp + 'restore',
            Rp + 'delete_snapshots', Rp + '_load_snapshots'], module=H, func='e_listing', timeout=1800, shards=16),
     ]
